@@ -13,7 +13,7 @@
    [blocks_ok]: well-formed CIDs, sections within MaxAllowedSectionSize; [hashes_ok hok]: every block
    hashes to its CID; [cids_indexable]: CIDs of at most 2048 bytes (MaxIndexCidSize); sizes < 2^63. *)
 From GoCar Require Import Bytes Varint Cid Header Frame V2Header Scan Index Store CliCmds.
-From GoCarProofs Require Import StoreInv CliBase CliWalk CliProducers CliConcat CliFilter CliClosure CliTheorems CliGet CliAppend CliIndexFacts CliFull CliExamples.
+From GoCarProofs Require Import StoreInv CliBase CliWalk CliProducers CliConcat CliFilter CliClosure CliTheorems CliGet CliAppend CliIndexFacts CliFull CliCidList CliExamples.
 From GoCarProofs Require FinalIndex.
 
 (* ---- car list / car root ------------------------------------------------------------------------------ *)
@@ -32,6 +32,36 @@ Theorem C19_root :
     root_car hdrdec file = (true, roots).
 Proof. exact root_car_valid. Qed.
 Print Assumptions C19_root.
+
+(* ---- the CID list car filter reads (--cid-file or stdin) ---------------------------------------------------------- *)
+(* every rendering of a list of lines -- inline white space around an optional CID text, each line ended
+   by LF or CRLF (the bool), then optionally a last line WITHOUT terminator -- parses to exactly the CIDs
+   of the lines, in order ([lines_cids]: blank lines contribute nothing, a text contributes what cid.Parse,
+   the table, makes of it).  The filter theorems below take the parsed selection [sel]. *)
+Theorem C19_cid_list_syntax :
+  forall tab (ls : list (cline * bool)) (last : option cline) cs cl,
+    Forall (fun lc => cline_ok (fst lc)) ls ->
+    lines_cids tab (map fst ls) cs ->
+    match last with Some l => cline_ok l /\ lines_cids tab [l] cl | None => cl = [] end ->
+    parse_cids tab (concat (map cline_term ls) ++ match last with Some l => cline_bytes l | None => [] end)
+    = Some (cs ++ cl).
+Proof. exact parse_cids_rendered. Qed.
+Print Assumptions C19_cid_list_syntax.
+
+Theorem C19_filter_reads_its_cid_list :
+  forall hok hdrdec tab text sel inv ver app infile outf,
+    parse_cids tab text = Some sel ->
+    filter_cmd hok hdrdec tab text inv ver app infile outf = filter_car hok hdrdec sel inv ver app infile outf.
+Proof. exact filter_cmd_parsed. Qed.
+Print Assumptions C19_filter_reads_its_cid_list.
+
+(* error branch: a line cid.Parse refuses stops the command before the output is touched *)
+Theorem C19_filter_refuses_unparsable_cid_list :
+  forall hok hdrdec tab text inv ver app infile outf,
+    parse_cids tab text = None ->
+    filter_cmd hok hdrdec tab text inv ver app infile outf = (false, outf).
+Proof. exact filter_cmd_unparsable. Qed.
+Print Assumptions C19_filter_refuses_unparsable_cid_list.
 
 (* ---- car filter (without --append) ------------------------------------------------------------------------ *)
 (* The output file, byte for byte, whatever was at the output path before: the CARv1 / the CARv2
